@@ -204,9 +204,10 @@ def solve_sat(
 
     def unassign_to(level):
         nonlocal prop_head
-        while len(trail_lim) > level:
-            trail_lim.pop()
-        target = trail_lim[-1] if trail_lim else 0
+        if len(trail_lim) <= level:
+            return
+        target = trail_lim[level]
+        del trail_lim[level:]
         while len(trail) > target:
             var = trail.pop()
             phase[var] = vals[var] == 1
@@ -414,7 +415,8 @@ def solve_sat(
             add_watch(clause[0], i)
             add_watch(clause[1], i)
 
-    for var, val in find_pure_literals():
+    # Pure literal elimination preserves satisfiability, not the model set
+    for var, val in find_pure_literals() if solution_limit == 1 else ():
         if vals[var] == UNDEF:
             assign(var, val, -1)
 
@@ -526,6 +528,7 @@ def solve_sat(
                 add_watch(blocking[0], clause_idx)
 
             unassign_to(0)
+            prop_head = 0  # the new clause must be examined against the level-0 literals too
             dec_level = 0
             conflict = propagate()
             continue
